@@ -33,7 +33,10 @@ TRUSTED = [
     "Model/Common/PyFloat.lean: IEEE-754 description of CPython's int/int true division and math.ceil "
     "(validated by gen.Fee.*_vsize around 2^53 and 2^1024 on every run)",
     "Btc.C18.Core.* is a hand transcription of Bitcoin Core's GetDustThreshold / IsUnspendable / IsWitnessProgram",
-    "hand-written entry points (FeeRate guard, is_segwit, funding decision, Decimal model) are tied by correspondence only",
+    "hand-written entry points (FeeRate guard, is_segwit, funding decision, Decimal model, psbt_size model, sig_op_count) "
+    "are tied by correspondence only",
+    "T4 compares the estimate with C10's finalizer MODEL (Model/C10/Spend.lean, tied to btclib by C10's streams); "
+    "type_and_payload facts and key sizes are hypotheses of the per-template theorems",
 ]
 ASSUMPTIONS = ["vsize = ceil(weight/4) is exact only for weight < 2^53 (float division in the source); "
                "consensus weights are < 4*10^6"]
@@ -168,6 +171,50 @@ def _render_dec(d: Decimal) -> str:
     return f"{int(''.join(map(str, digits)))} {exp}"
 
 
+def _hexcsv(tok):
+    return [] if tok == "-" else [unhx(x) for x in tok.split(",")]
+
+
+def _psize_input(t):
+    """the real `estimated_input_sizes` on a PsbtIn rebuilt from the op line's fields."""
+    from btclib.bip32 import BIP32KeyOrigin
+    from btclib.psbt.psbt_size import estimated_input_sizes
+    from btclib.script import Witness
+    spk, redeem, ws, keys, sht, leaf, fss, fwit, sizer = t[1:10]
+    hd = {} if keys == "-" else {unhx(kv.split(":")[0]): BIP32KeyOrigin("deadbeef", f"m/{i}")
+                                 for i, kv in enumerate(keys.split(","))}
+    psbt_in = PsbtIn(
+        witness_utxo=None if spk == "None" else TxOut(1000, unhx(spk), check_validity=False),
+        redeem_script=unhx(redeem), witness_script=unhx(ws), hd_key_paths=hd,
+        sig_hash_type=None if sht == "None" else int(sht),
+        taproot_leaf_scripts={b"\xc0" + bytes(32): (b"\x51", 0xC0)} if leaf == "1" else None,
+        final_script_sig=unhx(fss), final_script_witness=Witness(_hexcsv(fwit), check_validity=False),
+        check_validity=False)
+    tx_in = TxIn(OutPoint(b"\x01" * 32, 0), check_validity=False)
+    answer = None if sizer == "None" else ([] if sizer == "_" else [int(x) for x in sizer.split(",")])
+    try:
+        n, w = estimated_input_sizes(psbt_in, tx_in, sizer=(lambda *_: answer) if sizer != "None" else None)
+    except Exception as e:  # noqa: BLE001
+        c = common.err_class(e)
+        return "err " + (c if not c.startswith("foreign") else "foreign")
+    return f"ok {n} " + (",".join(map(str, w)) or "_")
+
+
+def _psize_weight(t):
+    """`Tx.size` / `Tx.weight` of the placeholder transaction `Psbt.weight_estimate` builds from such sizes."""
+    from btclib.script import Witness
+    ins = [] if t[1] == "_" else t[1].split(";")
+    vin = []
+    for i, tok in enumerate(ins):
+        a, w = tok.split(":")
+        stack = [] if w == "-" else [bytes(int(x)) for x in w.split("/")]
+        vin.append(TxIn(OutPoint(bytes([i % 250 + 1]) * 32, i), bytes(int(a)), 0xFFFFFFFF, Witness(stack, check_validity=False),
+                        check_validity=False))
+    vout = [TxOut(1, bytes([0x51]) * int(x), check_validity=False) for x in ([] if t[2] == "_" else t[2].split(","))]
+    tx = Tx(2, 0, vin, vout, check_validity=False)
+    return f"ok {tx.size} {tx.weight}"
+
+
 def impl(line: str) -> str:
     t = line.split(" ")
     op = t[0]
@@ -185,6 +232,13 @@ def impl(line: str) -> str:
         return common.call_impl(lambda: is_segwit(unhx(t[1])))
     if op == "funding.build":
         return _funding_call(t)[0]
+    if op == "psize.input":
+        return _psize_input(t)
+    if op == "psize.weight":
+        return _psize_weight(t)
+    if op == "sigops.count":
+        from btclib.script.sig_ops import sig_op_count
+        return common.call_impl(lambda: sig_op_count(unhx(t[1])))
     if op == "der.len":
         from btclib.ecc import dsa
         return common.call_impl(lambda: len(dsa.Sig(int(t[1]), int(t[2]), check_validity=False).serialize(
@@ -897,6 +951,124 @@ def _run_sizes(ctx):
                                  "n_in": rng.choice([1, 252, 253]), "segwit": rng.random() < 0.6})
 
 
+def _psize_line(rng, psbt_in, spk):
+    """op line for `psize.input` from a PsbtIn the library's updater filled, possibly perturbed."""
+    from btclib.hashes import hash160
+    redeem, ws = psbt_in.redeem_script, psbt_in.witness_script
+    keys = list(psbt_in.hd_key_paths)
+    sht, leaf, fss, fwit, sizer = psbt_in.sig_hash_type, bool(psbt_in.taproot_leaf_scripts), b"", [], "None"
+    r = rng.random()
+    if r < 0.08:
+        redeem = b""
+    elif r < 0.14:
+        ws = b""
+    elif r < 0.2:
+        keys = []
+    elif r < 0.25:
+        spk = None
+    elif r < 0.3:
+        fss, fwit = bytes(rng.randrange(0, 300)), [bytes(rng.randrange(0, 80)) for _ in range(rng.randrange(0, 4))]
+    elif r < 0.36:
+        leaf = True
+    elif r < 0.42:
+        redeem, ws = ws, redeem
+    elif r < 0.48:
+        spk = G.rand_script(rng)[:600]
+    if rng.random() < 0.3:
+        sizer = rng.choice(["_", "72", "65,34,33", "1,2,3,300", "0"])
+    if rng.random() < 0.15:
+        sht = rng.choice([None, 0, 1, 3, 0x81])
+    ktok = ",".join(f"{k.hex()}:{hash160(k).hex()}" for k in keys) or "-"
+    return (f"psize.input {'None' if spk is None else hx(spk)} {hx(redeem)} {hx(ws)} {ktok} "
+            f"{'None' if sht is None else sht} {1 if leaf else 0} {hx(fss)} "
+            f"{','.join(hx(e) for e in fwit) or '-'} {sizer}")
+
+
+def _o_sigops_tx(w):
+    """Tx.sig_op_count / Block.sig_op_count are the sums of sig_op_count over script_sigs and script_pub_keys."""
+    import random
+    from btclib.script.sig_ops import sig_op_count
+    rng = random.Random(w["seed"])
+    vin = [TxIn(OutPoint(bytes([i + 1]) * 32, i), _rand_sigops_script(rng), 0, check_validity=False)
+           for i in range(rng.choice([1, 2, 5]))]
+    vout = [TxOut(1, _rand_sigops_script(rng), check_validity=False) for _ in range(rng.choice([0, 1, 3]))]
+    tx = Tx(1, 0, vin, vout, check_validity=False)
+    want = sum(sig_op_count(i.script_sig) for i in tx.vin) + sum(sig_op_count(o.script_pub_key.script) for o in tx.vout)
+    return tx.sig_op_count == want, f"tx.sig_op_count={tx.sig_op_count} sum={want}"
+
+
+def _rand_sigops_script(rng):
+    parts = []
+    for _ in range(rng.randrange(0, 12)):
+        r = rng.random()
+        if r < 0.4:
+            parts.append(bytes([rng.choice([0xAC, 0xAD, 0xAE, 0xAF, 0xAB, 0x51, 0x00, 0x6A, 0xBA])]))
+        elif r < 0.7:
+            n = rng.choice([1, 2, 20, 33, 75])
+            parts.append(bytes([n]) + bytes(rng.choice([0xAC, 0xAE, 7]) for _ in range(n)))
+        elif r < 0.8:
+            n = rng.choice([0, 1, 76, 255])
+            parts.append(bytes([0x4C, n]) + bytes([0xAE]) * n)
+        elif r < 0.88:
+            n = rng.choice([0, 3, 256, 300])
+            parts.append(bytes([0x4D]) + n.to_bytes(2, "little") + bytes([0xAC]) * n)
+        elif r < 0.92:
+            parts.append(bytes([0x4E]) + (5).to_bytes(4, "little") + bytes([0xAC]) * 5)
+        else:   # a push running past the end: the count stops there
+            parts.append(bytes([rng.choice([0x20, 0x4B, 0x4C, 0x4D, 0x4E])]) + bytes([0xAC]) * rng.randrange(0, 3))
+    return b"".join(parts)
+
+
+ORACLES["sigops.tx"] = _o_sigops_tx
+
+
+def _run_psize(ctx):
+    """the psbt_size model against the real estimated_input_sizes / placeholder weight, and sig_op_count."""
+    from btclib.psbt.psbt_out import PsbtOut as _PsbtOut
+    rng = ctx.rng
+    lines = []
+    for _ in range(ctx.n(500, 8000)):
+        t, k = rng.randrange(len(TEMPLATES)), rng.randrange(100)
+        d = _descriptor(TEMPLATES[t])
+        spk = d.script_pub_key(k).script
+        pin = PsbtIn(witness_utxo=TxOut(1000, spk, check_validity=False), previous_tx_id=b"\x07" * 32, output_index=0)
+        psbt = Psbt(2, [pin], [_PsbtOut(amount=1, script_pub_key=PAY.script)], 0, {}, fallback_lock_time=0,
+                    check_validity=False)
+        psbt = d.update_psbt_input(psbt, 0, k)
+        lines.append(_psize_line(rng, psbt.inputs[0], spk))
+        ctx.count("psize.template", TEMPLATES[t])
+    # an uncompressed p2pkh key, known and unknown to the psbt
+    from btclib.hashes import hash160
+    unc = bytes.fromhex("04" + KEY[2:]) + bytes.fromhex(
+        "1ae168fea63dc339a3c58419466ceaeef7f632653266d0e1236431a950cfe52a")
+    spk = ScriptPubKey.p2pkh(unc).script
+    for ktok in ("-", f"{unc.hex()}:{hash160(unc).hex()}"):
+        lines.append(f"psize.input {hx(spk)} _ _ {ktok} None 0 _ - None")
+    ctx.stream("psize.input", lines)
+
+    edge = [0, 1, 72, 75, 76, 107, 252, 253, 254, 255, 256, 520, 65535, 65536]
+    lines = []
+    for _ in range(ctx.n(300, 5000)):
+        n_in = rng.choice([1, 1, 2, 3, 5, 252, 253])
+        ins = []
+        for _i in range(n_in):
+            w = "-" if rng.random() < 0.5 else "/".join(
+                str(rng.choice(edge[:12])) for _ in range(rng.choice([1, 2, 3, 4] if n_in > 5 else [1, 2, 3, 252, 253])))
+            ins.append(f"{rng.choice(edge if n_in < 6 else edge[:8])}:{w}")
+        outs = ",".join(str(rng.choice([0, 22, 25, 34, 252, 253, 10000])) for _ in range(rng.choice([0, 1, 2, 3]))) or "_"
+        lines.append(f"psize.weight {';'.join(ins)} {outs}")
+    ctx.stream("psize.weight", lines)
+
+    lines = []
+    for _ in range(ctx.n(1200)):
+        r = rng.random()
+        sc = _rand_sigops_script(rng) if r < 0.7 else G.rand_script(rng)[:400]
+        lines.append(f"sigops.count {hx(sc)}")
+    ctx.stream("sigops.count", lines)
+    for _ in range(ctx.n(100)):
+        ctx.check("sigops.tx", {"seed": rng.getrandbits(32)})
+
+
 def _run_estimate(ctx):
     rng = ctx.rng
     lines = []
@@ -923,3 +1095,4 @@ def run(ctx):
     _run_amount(ctx)
     _run_sizes(ctx)
     _run_estimate(ctx)
+    _run_psize(ctx)
